@@ -53,6 +53,10 @@ CLAIMS = {
    text="Lock-order graph over all mutex classes of imapserver+imapmemserver built from every acquisition reachable from the serving and IDLE goroutines (callback-aware: locks a callee holds when it invokes a passed closure are attributed to the call site; lock-transfer summaries for the response-encoder wrappers) and checked acyclic including same-class nesting; must-lockset for every field laid out under a mutex (struct-layout convention + 'protected by' comments) with the writer-locks discipline and connection-confinement for Conn fields; …Locked call discipline; no blocking channel operation under mailbox/tracker/user locks. 'other': deadlock freedom by lock order and race freedom for guarded fields are decided structurally; 'every command completes' as liveness is not.",
    technique="interprocedural lockset and lock-order analysis over go/ssa + VTA/CHA call graph, with higher-order (callback) summaries",
    design="§4 C14"),
+ "C15": dict(
+   text="Structural clauses of the number-set types: no `n <= bound; n++` enumeration loop over an unsigned variable with a run-time bound can wrap at the type's maximum; every unsafe.Pointer cast between the public SeqSet/UIDSet/SeqRange/UIDRange/[]UID types and the internal imapnum ones is between layout-identical types (field names in order, offsets, sizes under the target's types.Sizes; 6 casts); every public set method delegates to the same-named internal method with its parameters in order (14 methods). 'other': preconditions of the set behaviour; the set algebra, canonical form and parse/print laws are value-level and not decided.",
+   technique="type-layout comparison with go/types Sizes, loop-shape (integer wrap) rule and argument-provenance rule over go/ssa",
+   design="§4 C15"),
  "C17": dict(
    text="STARTTLS boundary clauses on both sides, for all paths: after the OK the server re-seats br and bw on a stream derived only from tls.Server (value-flow through wrapReadWriter, whose body is checked) and installs the TLS conn, holding the write lock across the switch; the client re-seats br/bw on tls.Client in upgradeStartTLS, which is called only after the CRLF of the tagged OK of a successful STARTTLS command; NewStartTLS returns a client only on State()==NotAuthenticated and closes it otherwise; AUTH=/LOGINDISABLED/STARTTLS advertisement tied to canAuth/canStartTLS edges and canStartTLS's truth table (2x5x2) evaluated exhaustively. 'other': the re-seating is the structural necessary condition for 'early plaintext is never parsed as protected data'; crypto/tls itself is trusted.",
    technique="value-flow (derives-only-from) and must-pass-through dataflow over go/ssa, exhaustive finite-domain evaluation of canStartTLS",
